@@ -606,7 +606,7 @@ def run_colls(ctx, cases, seeds, inputs_file=None, binname='colls', prefix='C ')
             with open(trace) as f:
                 for l in f:
                     l = l.rstrip('\n')
-                    if l.startswith(prefix) or (binname == 'colls' and (l.startswith('V ') or l.startswith('HP ') or l.startswith('HZ ') or l.startswith('HB '))):
+                    if l.startswith(prefix) or (binname == 'colls' and (l.startswith('V ') or l.startswith('HP ') or l.startswith('HZ ') or l.startswith('HB ') or l.startswith('HH '))):
                         last_case = l
                         if len(res['samples']) < 6 and l.startswith(prefix):
                             res['samples'].append(l[:200])
